@@ -129,8 +129,10 @@ pub fn run(tier: Tier, seed: u64) -> i32 {
     if nostd_exe.is_none() {
         ev.inconclusive("alloc-only harness binary not available (VH_NOSTD); D5 not run");
     }
-    let sizes: Vec<usize> = tier.pick(vec![300, 2100], vec![250, 300, 520, 2100, 4100, 8200]);
-    let pools: Vec<usize> = tier.pick(vec![1, 2, 3, 4, 5, 8, 16, 17], vec![1, 2, 3, 4, 5, 7, 8, 9, 15, 16, 17, 32]);
+    // 512 and 4096 rows fill their domain exactly (no padding rows: the last
+    // rows are active), the other sizes are padded
+    let sizes: Vec<usize> = tier.pick(vec![300, 512, 2100], vec![250, 300, 512, 520, 2100, 4096, 4100, 8200]);
+    let pools: Vec<usize> = tier.pick(vec![1, 2, 3, 4, 5, 6, 7, 8, 12, 16, 17], vec![1, 2, 3, 4, 5, 6, 7, 8, 9, 12, 15, 16, 17, 24, 32]);
     let n_children = tier.pick(4, 8);
     for (idx, &rows) in sizes.iter().enumerate() {
         let idx = idx as u64;
